@@ -22,7 +22,7 @@ def Probe.clear (p : Probe) : Probe :=
   { p with direct := none, indirect := [], directAckOk := false, indirectAckCount := 0, reached := false }
 
 def Probe.start (p : Probe) (target : Member) : Probe :=
-  { p.clear with direct := some target, number := wrapAdd8 p.number }
+  { p.clear with direct := some target, number := Gen.probeNumberBump p.number }
 
 def Probe.succeeded (p : Probe) : Bool := Gen.probeSucceeded p.directAckOk p.indirectAckCount
 def Probe.validate (p : Probe) : Bool := Gen.probeValidate p.direct p.reached
@@ -127,7 +127,7 @@ def memberSection (dst : Id) (msg : Msg) (pick : Pick) (rem0 : Nat) : M (Bytes Ã
   if Gen.needsPiggyback msg && rem0 > Gen.piggybackMinSpace then
     let rem := rem0 - 2
     if Gen.piggybackOnlyActive msg then
-      let idLen := (s.cfg.mps - rem) / 2
+      let idLen := (s.cfg.mps - rem) / Gen.feedIdDiv
       if idLen == 0 then panicAt .feedEstimateDiv else
       let cap := max (rem / idLen) Gen.feedMinEstimate
       let chosen â† chooseLoop cap (fun m => m.active && m.id != dst) s.ms [] 0
@@ -191,18 +191,18 @@ def announceToDown (num : Nat) : M Unit := do
 
 /-- `Foca::reset` -/
 def reset : M Unit :=
-  modS fun s => { s with conn := .disconnected, inc := 0, token := wrapAdd8 s.token, probe := s.probe.clear, epoch := s.epoch + 1 }
+  modS fun s => { s with conn := .disconnected, inc := 0, token := Gen.tokenBumpReset s.token, probe := s.probe.clear, epoch := s.epoch + 1 }
 
 /-- `Foca::become_disconnected` -/
 def becomeDisconnected : M Unit := do
   let s â† getS
   if E.debug && s.numActive != 0 then panicAt .disconnectedMembers else
-  modS fun s => { s with conn := .disconnected, token := wrapAdd8 s.token, probe := s.probe.clear, epoch := s.epoch + 1 }
+  modS fun s => { s with conn := .disconnected, token := Gen.tokenBumpDisconnected s.token, probe := s.probe.clear, epoch := s.epoch + 1 }
   emit (.notify .idle)
 
 /-- `Foca::become_undead` -/
 def becomeUndead : M Unit := do
-  modS fun s => { s with conn := .undead, probe := s.probe.clear, token := wrapAdd8 s.token, epoch := s.epoch + 1 }
+  modS fun s => { s with conn := .undead, probe := s.probe.clear, token := Gen.tokenBumpUndead s.token, epoch := s.epoch + 1 }
   emit (.notify .defunct)
 
 /-- `Foca::become_connected` -/
@@ -293,7 +293,7 @@ def handleSelfUpdate (inc : Nat) (st : St) : M Unit := do
       let ok â† attemptRejoin E
       if !ok then becomeUndead
     else
-      if increase then modS fun s => { s with inc := satAdd16 inc' }
+      if increase then modS fun s => { s with inc := Gen.incBump inc' }
       gossip E
   | .alive => pure ()
   | .down =>
